@@ -1181,14 +1181,36 @@ def cat_rejections(rng):
     return out
 
 
+def draw_one(rng):
+    c = rng.wpick(GENS)(rng)
+    if c["kind"] in ("rowpart", "colpart", "perturb", "lookup", "indep", "boundary"):
+        c["a"], c["b"] = decorate(rng, c["a"]), decorate(rng, c["b"])
+    return c
+
+
+def families(rng):
+    return ctor_rejections(rng) + dict2_rejections(rng) + cat_rejections(rng) + nan_target_cases(rng) \
+        + misc_rejections(rng) + nan_perturb_cases(rng) + allclose_cases()
+
+
+REQUIRED_SEED = 8080808
+_REQUIRED = None
+
+
+def required_stream():
+    """deterministic stream (constant seed, independent of VERIF_SEED and tier) that alone meets every requirement of
+    sanity(): the hand-written families plus a greedy cover drawn from the random generator under the constant seed"""
+    global _REQUIRED
+    if _REQUIRED is None:
+        base = families(C.Rng(REQUIRED_SEED + 1))
+        kept, left = F.greedy_required(draw_one, run, stats, problems, base, REQUIRED_SEED)
+        _REQUIRED = [dict(c, required=True) for c in base + kept]
+    return [dict(c) for c in _REQUIRED]
+
+
 def generate(rng, tier):
-    n = 620 if tier == "quick" else 25000
-    cases = [rng.wpick(GENS)(rng) for _ in range(n)]
-    for c in cases:
-        if c["kind"] in ("rowpart", "colpart", "perturb", "lookup", "indep", "boundary"):
-            c["a"], c["b"] = decorate(rng, c["a"]), decorate(rng, c["b"])
-    cases += ctor_rejections(rng) + dict2_rejections(rng) + cat_rejections(rng) + nan_target_cases(rng) + misc_rejections(rng) \
-        + nan_perturb_cases(rng) + allclose_cases()
+    n = 560 if tier == "quick" else 25000
+    cases = required_stream() + [draw_one(rng) for _ in range(n)]
     if tier == "thorough":
         cases += exhaustive(rng)
     return cases
@@ -1277,8 +1299,18 @@ REQUIRED_STREAMS = [           # prefixes of kind/sub-kind; each has an expected
 
 def sanity(cases, obss):
     """Fail-closed distribution check (DESIGN 3.5): every stream that carries a clause of the property must be drawn,
-    every storage kind must occur, rejections stay a minority, and both outcomes of == are observed."""
-    d = stats(cases, obss)
+    every storage kind must occur, rejections stay a minority, and both outcomes of == are observed.  Every requirement
+    is met by the deterministic required_stream() alone (checked here too): the run's seed only adds random cases."""
+    req = [(c, o) for c, o in zip(cases, obss) if isinstance(c, dict) and c.get("required")]
+    probs = problems(stats(cases, obss))
+    if req:
+        probs += ["required stream alone: " + p_ for p_ in problems(stats([c for c, _ in req], [o for _, o in req]))]
+    else:
+        probs.append("the deterministic required stream is missing")
+    return probs
+
+
+def problems(d):
     probs = []
     if not d["total"]:
         return ["no case was run"]
